@@ -56,11 +56,18 @@ end PlaceOps
 def collect (P : Params) (cb : Nat → CbRet) (fast : Bool) : List (Block × List Cand) → Core → World → Core × World × List Msg × Err
   | [], c, w => (c, w, [], .success)
   | (b, ks) :: rest, c, w =>
-    match addCands P cb fast b ks c w with
+    match addCands P cb fast b ks { c with unconfirmed := [] } w with     -- every block starts without pending chain pieces
     | (c', w', ms, .success) =>
       let (c'', w'', ms', e) := collect P cb fast rest c' w'
       (c'', w'', ms ++ ms', e)
     | r => r
+
+/-- one chained string of two pieces: string 0 = head, string 1 = tail with gap `[gmin-gmax]` -/
+def chainP (gmin gmax : Nat) : Params :=
+  { rules := [], imports := [], strRule := fun _ => 0, maxMatches := 1000, cands := fun _ => [],
+    ep := fun _ _ _ _ => none, singleMatch := fun _ => false, scanErr := fun _ => none,
+    chain := fun s => if s = 0 then some ⟨none, 0, 0, false⟩ else if s = 1 then some ⟨some 0, gmin, gmax, true⟩ else none,
+    pruneSlack := 1028, cond := fun _ _ => .ret false, modParse := fun _ _ => none }
 
 /-- candidates of a block at their absolute offsets -/
 def absCands (b : Block) (ks : List Cand) : List (Nat × Nat × Nat) := ks.map fun k => (k.str, b.base + k.off, k.len)
